@@ -12,7 +12,7 @@
 use super::*;
 use std::fmt::Write as _;
 use std::io::Write as _;
-use tokio::io::AsyncWriteExt;
+use tokio::io::{AsyncReadExt, AsyncWriteExt};
 use tokio_util::codec::Encoder;
 
 const WAIT_MS: u64 = 3000;
@@ -43,11 +43,19 @@ fn encode(msg: &rpki::Message) -> Vec<u8> {
     buf.to_vec()
 }
 
+/// A third cache runs on the SAME address as the cache under test (another port): the same address value in another Arc.
+/// Its one VRP is recognised by its AS number and must never be touched by the session under test.
+const TWIN_AS: u32 = 64777;
+
+fn twin_intact(tables: &TableHandle) -> bool {
+    tables.collect_roa(packet::Family::IPV4).iter().any(|(_, roa)| roa.as_number == TWIN_AS)
+}
+
 fn installed(tables: &TableHandle, cache: &IpAddr) -> Vec<String> {
     let mut v = Vec::new();
     for fam in [packet::Family::IPV4, packet::Family::IPV6] {
         for (net, roa) in tables.collect_roa(fam) {
-            if &*roa.source == cache {
+            if &*roa.source == cache && roa.as_number != TWIN_AS {
                 v.push(vrp_name(&net, roa.max_length, roa.as_number));
             }
         }
@@ -91,6 +99,8 @@ async fn world() -> World {
         roas.push((p, Arc::new(table::Roa::new(m, a, osrc.clone()))));
     }
     tables.rpki_insert(roas);
+    let twin = Arc::new(cache);
+    tables.rpki_insert(vec![(packet::IpNet::new("172.16.0.0".parse().unwrap(), 12), Arc::new(table::Roa::new(24, TWIN_AS, twin)))]);
     let (client_io, server_io) = tokio::io::duplex(1 << 16);
     let state = Arc::new(RpkiState::default());
     let framed = Framed::new(client_io, rpki::RtrCodec::new());
@@ -181,7 +191,7 @@ impl World {
                 tok[1].parse().unwrap(),
                 "notify",
             ),
-            "cachereset" => (encode(&rpki::Message::CacheReset), tok[1].parse().unwrap(), "cachereset"),
+            "cachereset" | "cacheresetq" => (encode(&rpki::Message::CacheReset), tok[1].parse().unwrap(), "cachereset"),
             "error" => {
                 // Error Report, code 2 (no data available), no encapsulated PDU, no text
                 let b = vec![1u8, 10, 0, 2, 0, 0, 0, 16, 0, 0, 0, 0, 0, 0, 0, 0];
@@ -207,6 +217,16 @@ impl World {
             x => panic!("harness: op {x}"),
         };
         let before = self.counter(ctr);
+        if k.starts_with("cachereset") {
+            // forget what the client has written so far: what counts is whether it answers the Cache Reset with a Reset Query
+            let mut junk = [0u8; 4096];
+            use futures::FutureExt;
+            while let Some(Ok(n)) = self.server.as_mut().unwrap().read(&mut junk).now_or_never() {
+                if n == 0 {
+                    break;
+                }
+            }
+        }
         self.write_cut(&bytes, cut).await;
         if ctr == "none" {
             // a PDU type the client does not use: progress is shown by a following Serial Notify being processed
@@ -227,6 +247,35 @@ impl World {
         for _ in 0..10 {
             tokio::task::yield_now().await;
         }
+        if k.starts_with("cachereset") {
+            // "cachereset": the client keeps what it has and asks nothing; "cacheresetq": it asks for a new snapshot (Reset
+            // Query, PDU type 2).  Which of the two a client does is its choice - the harness reports when the behaviour is not
+            // the one this step of the model stands for.
+            let mut got = Vec::new();
+            let mut buf = [0u8; 256];
+            let deadline = std::time::Instant::now() + std::time::Duration::from_millis(15);
+            while std::time::Instant::now() < deadline {
+                match tokio::time::timeout(std::time::Duration::from_millis(5), self.server.as_mut().unwrap().read(&mut buf)).await {
+                    Ok(Ok(n)) if n > 0 => got.extend_from_slice(&buf[..n]),
+                    _ => {}
+                }
+            }
+            let mut asked = false;
+            let mut i = 0;
+            while i + 8 <= got.len() {
+                let l = u32::from_be_bytes([got[i + 4], got[i + 5], got[i + 6], got[i + 7]]) as usize;
+                if got[i + 1] == 2 {
+                    asked = true;
+                }
+                if l < 8 {
+                    break;
+                }
+                i += l;
+            }
+            if asked != (k == "cacheresetq") {
+                note.push_str("variant-not-taken;");
+            }
+        }
         note
     }
 
@@ -234,9 +283,10 @@ impl World {
         let inst = installed(&self.tables, &self.cache);
         let oth = installed(&self.tables, &self.other);
         format!(
-            "{{\"inst\":[{}],\"other\":[{}],\"up\":{}}}",
+            "{{\"inst\":[{}],\"other\":[{}],\"twin\":{},\"up\":{}}}",
             inst.iter().map(|x| format!("\"{}\"", x)).collect::<Vec<_>>().join(","),
             oth.iter().map(|x| format!("\"{}\"", x)).collect::<Vec<_>>().join(","),
+            twin_intact(&self.tables),
             self.state.up.load(Ordering::Relaxed)
         )
     }
